@@ -13,14 +13,18 @@ Definition tab : string := String (ascii_of_nat 9) "".
 Definition pr_field (f : bool * list ascii) : string :=
   (if fst f then "s" else "b") ++ hex_of_bytes (snd f).
 
+(* a bool source renders as "true" / "false" *)
+Definition is_boolean_text (d : list ascii) : bool :=
+  String.eqb (string_of_bytes d) "true" || String.eqb (string_of_bytes d) "false".
+
 (* the assign operations carry the integer whose decimal rendering is the data *)
 Definition pr_op (o : op) : string :=
   match o with
   | OBufferize d _ => "B:" ++ hex_of_bytes d
   | OBufferizeString d _ => "S:" ++ hex_of_bytes d
   | OAcqRel d _ => "A:" ++ hex_of_bytes d
-  | OAssignBytes d _ => "YB:" ++ string_of_bytes d
-  | OAssignStr d _ => "YS:" ++ string_of_bytes d
+  | OAssignBytes d _ => (if is_boolean_text d then "YBb:" else "YB:") ++ string_of_bytes d
+  | OAssignStr d _ => (if is_boolean_text d then "YSb:" else "YS:") ++ string_of_bytes d
   | OCopyTo fs _ => "C:" ++ join "," (map pr_field fs)
   | OReset => "R"
   | CWrite k i c => "W:" ++ nat_to_string k ++ ":" ++ nat_to_string i ++ ":" ++ hex_of_ascii c
@@ -72,7 +76,7 @@ Definition adds (o : op) : nat :=
 
 Definition alphabet (n : nat) : list op :=
   [OBufferize (b "ab") 0; OBufferize (b "") 0; OBufferizeString (b "cd") 0; OAcqRel (b "xyz") 0;
-   OAssignBytes (b "42") 0; OAssignStr (b "7") 0; OCopyTo [(true, b "e"); (false, b "fg")] 0; OReset] ++
+   OAssignBytes (b "42") 0; OAssignStr (b "7") 0; OAssignBytes (b "true") 0; OAssignStr (b "false") 0; OCopyTo [(true, b "e"); (false, b "fg")] 0; OReset] ++
   (if Nat.eqb n 0 then [] else
      [CWrite (n - 1) 0 "!"%char; CAppend 0 (b "Q") 0; CAppend (n - 1) (b "QQQQQQQQQ") 0;
       CSetUnbuf 0 (b "5") 0; CSetUnbuf (n - 1) (b "123456789") 0]).
@@ -113,8 +117,10 @@ Definition rnd_op (s : rng) (n : nat) : op * rng :=
   | 0 => let '(d, s2) := rnd_bytes s1 6 in (OBufferize d 0, s2)
   | 1 => let '(d, s2) := rnd_bytes s1 6 in (OBufferizeString d 0, s2)
   | 2 => let '(d, s2) := rnd_bytes s1 9 in (OAcqRel d 0, s2)
-  | 3 => let '(d, s2) := rnd_digits s1 in (OAssignBytes d 0, s2)
-  | 4 => let '(d, s2) := rnd_digits s1 in (OAssignStr d 0, s2)
+  | 3 => let '(d, s2) := rnd_digits s1 in let '(k, s3) := rng_nat s2 4 in
+         (OAssignBytes (if Nat.eqb k 0 then b "true" else if Nat.eqb k 1 then b "false" else d) 0, s3)
+  | 4 => let '(d, s2) := rnd_digits s1 in let '(k, s3) := rng_nat s2 4 in
+         (OAssignStr (if Nat.eqb k 0 then b "false" else if Nat.eqb k 1 then b "true" else d) 0, s3)
   | 5 => let '(d1, s2) := rnd_bytes s1 4 in let '(d2, s3) := rnd_bytes s2 4 in
          let '(d3, s4) := rnd_bytes s3 4 in (OCopyTo [(true, d1); (false, d2); (false, d3)] 0, s4)
   | 6 => let '(d, s2) := rnd_bytes s1 40 in (OBufferize d 0, s2)
